@@ -1601,6 +1601,21 @@ package badger
 //@   light
 //@   assert[entry-of-kv] before call handleEntry : arg1.version == kv.Version && e.version == kv.Version && e.Key == kv.Key && e.Value == kv.Value && (len(kv.UserMeta) > 0 ==> e.UserMeta == kv.UserMeta[0])
 
+// Iterator.Next hands the current item back for reuse, takes the next prefetched one and keeps
+// parsing entries (while the source is valid and inside the prefix) until one more item is
+// queued; prefetch fills the queue the same way, up to its size.
+//@ func (*Iterator).Next
+//@   props C05 C01
+//@   light
+//@   assert[current-item-recycled] before call push : arg1 == it.item && called(Wait#1)
+//@   assert[parse-only-inside-prefix] before call parseItem : ret(hasPrefix#1) && ret(Valid#1) && arg0 == it
+
+//@ func (*Iterator).prefetch
+//@   props C05 C01
+//@   light
+//@   assert[parse-only-inside-prefix] before call parseItem : ret(hasPrefix#1) && ret(Valid#1) && arg0 == it
+//@   assert[prefix-of-this-iterator] before call hasPrefix : arg0 == it
+
 // ---- streams (C25): one snapshot per run ----
 
 // Every producer goroutine of one Stream run must read the same snapshot. With a caller-given
